@@ -247,15 +247,6 @@ func runC10(tier string, seed uint64, rep *Report) {
 		all = append(all, finals)
 		allOps := append([][]futOp{}, ops...)
 		allOps = append(allOps, finalOps)
-		// outcomes seen by readers without deadline: the reference for classifying expiring readers
-		patient := map[string]bool{}
-		for t := range all {
-			for k, c := range all[t] {
-				if allOps[t][k].opc == 0 && allOps[t][k].arg == 0 {
-					patient[describe(c)] = true
-				}
-			}
-		}
 		broken := false
 		for t := range all {
 			for k, c := range all[t] {
@@ -275,7 +266,10 @@ func runC10(tier string, seed uint64, rep *Report) {
 				switch op.opc {
 				case 0:
 					d := describe(c)
-					if op.arg == 1 && c.Err != nil && strings.Contains(d, "timeout while") && !patient[d] {
+					if op.arg == 1 && c.Err != nil && strings.Contains(d, "timeout while") {
+						// the caller's own context ended (in EVAL's poll or in Deref's select). When the future's outcome is
+						// itself a timeout error (a cancelled body) the two cannot be told apart from the text: such a call is
+						// always booked as the caller's timeout, which the clauses allow at any time
 						rc.rk = 1
 					} else {
 						rc.rk, rc.rv = 0, code(d)
